@@ -194,11 +194,24 @@ func runGenerator() (map[string]string, error) {
 		if len(arr) < 3 {
 			continue
 		}
-		for _, where := range []struct {
+		type pos struct {
 			name string
 			i    int
-		}{{"first", 0}, {"middle", len(arr) / 2}, {"last", len(arr) - 1}} {
-			for _, edit := range []string{"retire", "remove", "add"} {
+		}
+		places := []pos{{"first", 0}, {"middle", len(arr) / 2}, {"last", len(arr) - 1}}
+		// the first entry that directly follows a deprecated one (state carried from one entry to the next shows here)
+		for i := 1; i < len(arr); i++ {
+			prev, _ := arr[i-1].(map[string]any)
+			cur, _ := arr[i].(map[string]any)
+			pd, _ := prev[js.depKey].(bool)
+			cd, _ := cur[js.depKey].(bool)
+			if pd && !cd {
+				places = append(places, pos{"after-deprecated", i})
+				break
+			}
+		}
+		for _, where := range places {
+			for _, edit := range []string{"retire", "remove", "add", "add-without-flag", "drop-flag"} {
 				cp := make([]any, 0, len(arr)+1)
 				for i, e := range arr {
 					m, _ := e.(map[string]any)
@@ -216,6 +229,18 @@ func runGenerator() (map[string]string, error) {
 						continue
 					case i == where.i && edit == "add":
 						cp = append(cp, map[string]any{js.idKey: "Verif-Added-1.0", js.depKey: false})
+					case i == where.i && edit == "add-without-flag":
+						// an entry that says nothing about deprecation is not deprecated
+						cp = append(cp, map[string]any{js.idKey: "Verif-Added-1.0"})
+					case i == where.i && edit == "drop-flag":
+						m2 := map[string]any{}
+						for k, v := range m {
+							if k != js.depKey {
+								m2[k] = v
+							}
+						}
+						cp = append(cp, m2)
+						continue
 					}
 					cp = append(cp, e)
 				}
@@ -368,7 +393,7 @@ func init() {
 		ID:       "C12",
 		Title:    "shipped license tables = SPDX source data",
 		Explorer: "E1 complete enumeration of a finite configuration (every id of both JSON files and of the three Go tables) + real generator re-run",
-		Rule: "state = one id in one role/form; transitions = ValidateLicenses/ExtractLicenses calls on it; the generator is built in a scratch copy of the working tree and run once per scenario = (state of the output files before the run: absent / as committed / lengthened / cut short) or (one JSON entry retired / removed / added at the first, middle, last position, regenerated over the committed files), its three outputs compared byte for byte with the committed files resp. with header + ids of the edited JSON + footer; " +
+		Rule: "state = one id in one role/form; transitions = ValidateLicenses/ExtractLicenses calls on it; the generator is built in a scratch copy of the working tree and run once per scenario = (state of the output files before the run: absent / as committed / lengthened / cut short) or (one JSON entry retired / removed / added / added without a deprecation flag / stripped of its flag, at the first, a middle, the last position and right after a deprecated entry, regenerated over the committed files), its three outputs compared byte for byte with the committed files resp. with header + ids of the edited JSON + footer; " +
 			"JSON-derived sequences compared with GetLicenses/GetDeprecated/GetExceptions; lists checked pairwise disjoint and fold-unique; every license id accepted alone, every exception id accepted after WITH and rejected in 11 other forms; each table getter called, its result overwritten / filtered in place / appended to, and called again (the tables must not be reachable through what a getter returns); " +
 			"non-trivial = ids checked in the exception-rejection forms and suffix forms (where acceptance is not a plain list lookup)",
 		Assumptions: []string{"encoding/json with the generator's own field names is the reading of the SPDX JSON", "the stale cmd/*_ids.json|txt files are not produced by the current generator and are outside the claim"},
